@@ -2,6 +2,7 @@ import asyncio
 
 from quart import websocket
 
+from rsocket.exceptions import RSocketTransportError
 from rsocket.frame import Frame
 from rsocket.helpers import wrap_transport_exception
 from rsocket.logger import logger
@@ -40,6 +41,8 @@ class TransportQuartWebsocket(AbstractMessagingTransport):
                     self._incoming_frame_queue.put_nowait(frame)
         except asyncio.CancelledError:
             logger().debug('Asyncio task canceled: quart_handle_incoming_ws_messages')
+        finally:
+            self._incoming_frame_queue.put_nowait(RSocketTransportError())
 
     async def send_frame(self, frame: Frame):
         with wrap_transport_exception():
